@@ -63,6 +63,7 @@ type gop struct {
 	hid    int
 	iid    int
 	tok    string // hex or "-"
+	auto   bool   // appended by the harness (run-down of all timers), not part of the generated history
 }
 
 func nameTxt(n []int) string {
@@ -135,6 +136,9 @@ func (g gop) String() string {
 		}
 		return fmt.Sprintf("nack n=%s dig=%s reason=%d", nameTxt(g.name), dig, g.reason)
 	case "adv":
+		if g.auto {
+			return fmt.Sprintf("adv ms=%d auto=1", g.ms)
+		}
 		return fmt.Sprintf("adv ms=%d", g.ms)
 	case "attach":
 		return fmt.Sprintf("attach n=%s h=%d", nameTxt(g.name), g.hid)
@@ -204,6 +208,8 @@ func parseGop(line string) (gop, bool) {
 			g.iid, _ = strconv.Atoi(v)
 		case "tok":
 			g.tok = v
+		case "auto":
+			g.auto = v == "1"
 		}
 	}
 	switch g.kind {
@@ -1055,8 +1061,15 @@ func TestTrace(t *testing.T) {
 	defer close(stop)
 	fmt.Fprintf(out, "# seed=%d cases=%d\n", seed, len(cases))
 	for i, ops := range cases {
-		// run every timer down: beyond the default lifetime plus the longest chain of nested re-expressions
-		ops = append(append([]gop{}, ops...), gop{kind: "adv", ms: 4100}, gop{kind: "adv", ms: 600})
+		// run every timer down: beyond the default lifetime plus the longest chain (3) of nested re-expressions (<= 100 ms each);
+		// computed from the engine's own constants (4100 and 600 ms for 4 s / 10 ms)
+		consts := basic.VerifConstants()
+		lifeMs := int(consts["DefaultInterestLife"] / 1000000)
+		marginMs := int(consts["TimeoutMargin"]/1000000) + 1
+		for len(ops) > 0 && ops[len(ops)-1].auto { // a replayed case may already carry them
+			ops = ops[:len(ops)-1]
+		}
+		ops = append(append([]gop{}, ops...), gop{kind: "adv", ms: lifeMs + marginMs + 89, auto: true}, gop{kind: "adv", ms: 3*(100+marginMs) + 267, auto: true})
 		cur.Store(ops)
 		fmt.Fprintf(out, "case %d %s\n", i, titles[i])
 		for _, g := range ops {
